@@ -1,10 +1,70 @@
 import KawinV.Proto
-/-! driver verbs for C12 (stub: no verbs yet) -/
+import KawinV.Model.ICScan
+/-! driver verbs for C12: regenerated Gibbs–Thomson / growth formulas and the scan model, on `Float` -/
 namespace KawinV.Drv.C12
-open KawinV.Proto
+open KawinV KawinV.Proto KawinV.Gen.C12 KawinV.IC
+
+instance : One Float := ⟨1.0⟩
+instance : Zero Float := ⟨0.0⟩
+
+def fn (a : Array Float) : Nat → Float := fun i => a.getD i 0.0
+
+/-- gen.gt Vm E f gamma R dG → gExtra(R), volDG, rcritProposal(volDG), gcrit(gamma, R) -/
+def gt : P String := do
+  let vm ← flt; let e ← flt; let f ← flt; let g ← flt; let r ← flt; let dG ← flt
+  let dv := volDG dG vm e
+  pure (flist [gExtra vm e f g r, dv, rcritProposal f g dv, gcrit g r])
+
+/-- gen.multi mc R dG gExtra → growthMulti -/
+def multi : P String := do
+  let mc ← flt; let r ← flt; let dG ← flt; let ge ← flt
+  pure (fout (growthMulti mc r dG ge))
+
+/-- gen.kwn kf mc R dGv Vm E f gamma → growthMultiKWN -/
+def kwn : P String := do
+  let kf ← flt; let mc ← flt; let r ← flt; let dv ← flt; let vm ← flt; let e ← flt; let f ← flt; let g ← flt
+  pure (fout (growthMultiKWN kf mc r dv vm e f g))
+
+/-- gen.bin kf D eff x xa xb Va Vb R → superSat, growthBinary -/
+def bin : P String := do
+  let kf ← flt; let d ← flt; let eff ← flt; let x ← flt; let xa ← flt; let xb ← flt
+  let va ← flt; let vb ← flt; let r ← flt
+  pure (flist [superSat x xa xb va vb, growthBinary kf d eff x xa xb va vb r])
+
+/-- ic.rcrit f gamma dGv Rmin → Rcrit, Gcrit as nucleationBarrier returns them (bulk/dislocation) -/
+def rcrit : P String := do
+  let f ← flt; let g ← flt; let dv ← flt; let rmin ← flt
+  let rc := rcritUsed f g dv rmin
+  pure (flist [rc, gcrit g rc])
+
+def recP : P (Rec Float) := do
+  let ge ← nat; let two ← bool; let xm ← flt; let xp ← flt
+  pure ⟨ge, two, xm, xp⟩
+
+/-- ic.scan sent n k (ge two xm xp)×k → final gIndex, inRange, xMatrixArray(n), xPrecipArray(n) -/
+def scanV : P String := do
+  let sent ← flt; let n ← nat; let rs ← lst recP
+  let st := scan sent rs
+  let idx := List.range n
+  pure s!"{st.gIndex} {bstr (inRange n rs)} {flist (idx.map st.xM)} {flist (idx.map st.xP)}"
+
+/-- ic.lookup sent xa(n) xb(n) → RdrivingForceIndex, PSDXalpha(n), PSDXbeta(n) after the prefix fill -/
+def lookupV : P String := do
+  let sent ← flt; let xa ← flts; let xb ← flts
+  let n := xa.length
+  let k := rdfi n sent (fn xa.toArray)
+  let idx := List.range n
+  pure s!"{k} {flist (idx.map (fillPrefix n 0.0 k (fn xa.toArray)))} {flist (idx.map (fillPrefix n 0.0 k (fn xb.toArray)))}"
 
 def handle (verb : String) : Option (P String) :=
   match verb with
+  | "gen.gt" => some gt
+  | "gen.multi" => some multi
+  | "gen.kwn" => some kwn
+  | "gen.bin" => some bin
+  | "ic.rcrit" => some rcrit
+  | "ic.scan" => some scanV
+  | "ic.lookup" => some lookupV
   | _ => none
 
 end KawinV.Drv.C12
